@@ -173,7 +173,7 @@ type interp struct {
 	flushedKeys                                           map[string]bool
 	gcs, reopens, chainDepth                              int
 	keep                                                  []*dkv.DB
-	walDropsChecked                                       int
+	walDropsChecked, lateRetains                          int
 }
 
 func opts(p Program, fs storage.FileSystem) dkv.DBOptions {
@@ -276,6 +276,7 @@ func Exec(p Program, c *hx.Case, mode Mode) (err error) {
 	c.LabelIf(in.restores > 0, "restore")
 	c.LabelIf(in.gcs > 0, "forced-gc")
 	c.LabelIf(in.walDropsChecked > 0, "wal-removal-after-retention-checked")
+	c.LabelIf(in.lateRetains > 0, "late-retention-update")
 	return nil
 }
 
@@ -668,12 +669,21 @@ func (in *interp) retain(step int, op Op) error {
 	}
 	// keep a non-empty suffix-or-subset chosen by the program; the newest is always kept
 	var ids []uint64
+	// A "late" update (B odd) was sent before the newest checkpoint existed: it
+	// names only older ones, and the newer checkpoint must survive it.
+	late := op.B%2 == 1 && len(live) >= 2
 	for i, ck := range live {
-		if i == len(live)-1 || (op.A>>uint(i%16))&1 == 1 {
+		switch {
+		case late && i == len(live)-1:
+			// not named, still retained
+		case late && i == len(live)-2, !late && i == len(live)-1, (op.A>>uint(i%16))&1 == 1:
 			ids = append(ids, ck.id)
-		} else {
+		default:
 			ck.retained = false
 		}
+	}
+	if late {
+		in.lateRetains++
 	}
 	// WAL files of the checkpoints about to be dropped (from the current document)
 	dropWALs := map[uint64][]string{}
@@ -688,7 +698,7 @@ func (in *interp) retain(step int, op Op) error {
 			json.Unmarshal(data, &doc)
 			for _, d := range doc.Checkpoints {
 				for _, w := range d.WALs {
-					if slices.Contains(ids, d.ID) {
+					if d.ID == ck.id && ck.retained {
 						keepWALs[w.URI] = true
 					} else if d.ID == ck.id {
 						dropWALs[d.ID] = append(dropWALs[d.ID], w.URI)
